@@ -49,20 +49,17 @@ theorem gen_export_layouts :
 theorem gen_sign_is_export_without_signature (c : Cls) : exportLayout c = signLayout c ++ [sigField c] :=
   layout_split c
 
-/-- what `parse()` unpacks is, field by field, what `export()` packs: same struct codes, and each unpacked value ends
-    up in the constructor attribute that `export()` packs at that position (the generator resolves a local variable
-    to the keyword of the returned `cls(...)` call it is passed to; `_` for the version words that RSA parse reads
-    separately); the constructor receives every attribute -/
+/-- what `parse()` reads is, position by position, what `export()` packs: same struct codes, each value ends up in the attribute
+    that `export()` packs at that position (the generator runs `parse(export(x))` on distinctive credentials, follows every
+    `unpack_from` by offset into the attribute of the result that receives it, and names the widths after what they vary with:
+    RSA sizes by minor version, twice the coordinate size of the version for ECC, the export length / signature size of the used
+    SRK key for EdgeLock; the region between head and tail is the RoT meta) -/
 theorem gen_parse_matches_export :
-    DatConsts.rsaParse.map (·.1) = DatConsts.rsaExport.map (·.1) ∧
-    (DatConsts.rsaParse.map (·.2)).drop 2 = (DatConsts.rsaExport.map (·.2)).drop 2 ∧
-    (DatConsts.rsaParse.map (·.2)).take 2 = [.skip, .skip] ∧
-    DatConsts.eccParseHead = DatConsts.eccExport.take 7 ∧ DatConsts.eleParseHead = DatConsts.eleExport.take 7 ∧
-    DatConsts.eccParseTail.map (·.2) = ((DatConsts.eccExport.drop 8).map (·.2)) ∧
-    DatConsts.eccParseTail.map (·.1) = [.bytes .hashSize2, .bytes .hashSize2, .bytes .hashSize2] ∧
-    DatConsts.eleParseTail = [(.bytes .lenRotPub, .dck), (.bytes .rotSigSize, .sig)] ∧
-    DatConsts.rsaParseFields = [.socc, .uuid, .rotMeta, .dck, .ccSocu, .ccVu, .beacon, .rotPub, .sig] ∧
-    DatConsts.eccParseFields = DatConsts.rsaParseFields ∧ DatConsts.eleParseFields = DatConsts.rsaParseFields := by decide
+    DatConsts.rsaParse = DatConsts.rsaExport ∧
+    DatConsts.eccParse.map (·.2) = DatConsts.eccExport.map (·.2) ∧ DatConsts.eccParse.take 8 = DatConsts.eccExport.take 8 ∧
+    (DatConsts.eccParse.drop 8).map (·.1) = [.bytes .hashSize2, .bytes .hashSize2, .bytes .hashSize2] ∧
+    DatConsts.eleParse.map (·.2) = DatConsts.eleExport.map (·.2) ∧ DatConsts.eleParse.take 8 = DatConsts.eleExport.take 8 ∧
+    (DatConsts.eleParse.drop 8).map (·.1) = [.bytes .lenRotPub, .bytes .rotSigSize] := by decide
 
 /-- sizes: an RSA key field is modulus + 4-byte exponent, the signature has the modulus size; ECC coordinate sizes
     and the SHA-2 width that goes with each; the key-size → minor-version maps agree with them -/
@@ -79,40 +76,45 @@ theorem gen_sizes :
     DatConsts.rotMetaRsaItem = 32 ∧ DatConsts.rotMetaRsaMinLen = DatConsts.rotMetaRsaSize ∧
     DatConsts.rotMetaRsaMaxKeys = DatConsts.rotMetaRsaCount ∧ DatConsts.flagsLen = 4 := by decide
 
-/-- `RotMetaFlags`: `export` is `1<<31 | used<<8 | cnt<<4`, `parse` inverts it, `validate` accepts exactly
-    `used < cnt ≤ 4` (checked on the whole 4-bit range of both fields), a word without the marker bit is refused -/
+/-- `RotMetaFlags`, against the tables obtained by running the current class: the constructor accepts exactly `used < cnt ≤ 4`
+    (whole 4-bit range of both fields), `export()` of every accepted pair is the word `1<<31 | used<<8 | cnt<<4`, `parse` answers
+    every probe word (all pairs with and without the marker bit, stray bits, pseudo-random words) as the model does, and inverts
+    `export`; only 4-byte inputs are parsed -/
 theorem gen_flags :
+    DatConsts.flagsLen = 4 ∧
+    (∀ c : Fin 16, ∀ u : Fin 16, ((u.val, c.val) ∈ DatConsts.flagsCtorOk ↔ flagsValid u.val c.val = true)) ∧
+    DatConsts.flagsExportTbl.map (·.1) = DatConsts.flagsCtorOk ∧
+    (∀ e ∈ DatConsts.flagsExportTbl, flagsBytes e.1.1 e.1.2 = .ok (leEnc 4 e.2) ∧ e.2 = 2147483648 + e.1.1 * 256 + e.1.2 * 16) ∧
+    (∀ p ∈ DatConsts.flagsParseProbes, flagsParse (leEnc 4 p.1) = (match p.2 with | some r => .ok r | none => .error .spsdk)) ∧
     (∀ c : Fin 5, ∀ u : Fin 5, u.val < c.val →
-      flagsBytes u.val c.val = .ok (specFlags u.val c.val) ∧ flagsParse (specFlags u.val c.val) = .ok (u.val, c.val)) ∧
-    (∀ c : Fin 16, ∀ u : Fin 16,
-      (DatConsts.flagsValidate u.val c.val = .ok true ↔ (u.val < c.val ∧ c.val ≤ 4)) ∧
-      (flagsParse (leEnc 4 (2147483648 + u.val * 256 + c.val * 16)) =
-        if u.val < c.val ∧ c.val ≤ 4 then .ok (u.val, c.val) else .error .spsdk) ∧
-      flagsParse (leEnc 4 (u.val * 256 + c.val * 16)) = .error .spsdk) := by
+      flagsBytes u.val c.val = .ok (specFlags u.val c.val) ∧ flagsParse (specFlags u.val c.val) = .ok (u.val, c.val)) := by
   decide +kernel
 
-/-- the challenge layout and the width of its RoT-hash field: 32 bytes for EdgeLock / "always SHA-256" devices and
-    for RSA, else the digest width of the credential's hash (48 for 2.1, 64 for 2.2) — the same table the credential
-    side uses (`eccHashBits`) -/
+/-- the challenge layout (read by offset / written) and the width of its RoT-hash field: the model's `dacRotHashLen` equals the
+    table obtained by running `get_rot_hash_length` (EdgeLock yes/no × always-SHA-256 yes/no × versions 0..3 × 0..3), is 32 bytes for
+    EdgeLock / "always SHA-256" devices and for RSA, else the digest width of the credential's hash (48 for 2.1, 64 for 2.2) — the
+    same table the credential side uses (`eccHashBits`); swapped version words are exchanged after the width has been taken -/
 theorem gen_dac :
-    DatConsts.dacHead = [(.u16, .major), (.u16, .minor), (.u32, .socc), (.bytes (.fixed 16), .uuid), (.u32, .revocation)] ∧
-    DatConsts.dacTail = [(.bytes .hashLength, .rkthHash), (.u32, .socPinned), (.u32, .socDefault), (.u32, .ccVu),
-      (.bytes (.fixed 32), .challenge)] ∧
-    DatConsts.dacExport.map (·.2) = DatConsts.dacHead.map (·.2) ++ DatConsts.dacTail.map (·.2) ∧
+    DatConsts.dacParseLayout = [(.u16, .major), (.u16, .minor), (.u32, .socc), (.bytes (.fixed 16), .uuid), (.u32, .revocation),
+      (.bytes .hashLength, .rkthHash), (.u32, .socPinned), (.u32, .socDefault), (.u32, .ccVu), (.bytes (.fixed 32), .challenge)] ∧
+    DatConsts.dacExport.map (·.2) = DatConsts.dacParseLayout.map (·.2) ∧
+    (∀ e ∈ DatConsts.dacHashLenTbl, dacRotHashLen e.1.1 e.1.2.1 e.1.2.2.1 e.1.2.2.2 = e.2) ∧
+    DatConsts.dacHashLenTbl.length = 64 ∧ DatConsts.dacSwapOk = true ∧
     (∀ v ∈ DatConsts.versions, ∀ ele sha : Bool,
-      DatConsts.dacRotHashLength ele sha v.1 v.2 =
-        .ok (if ele || sha || v.1 != 2 then 32
-             else (((lookup v.2 DatConsts.eccCoordSize).bind eccHashBits).getD 0 / 8 : Nat))) := by
+      dacRotHashLen ele sha v.1 v.2 =
+        (if ele || sha || v.1 != 2 then 32
+         else ((lookup v.2 DatConsts.eccCoordSize).bind eccHashBits).getD 0 / 8)) := by
   decide
 
-/-- responses: credential ‖ beacon (LE32) for RSA, ‖ UUID (16) in addition for exactly the ECC protocol versions;
-    signed message = common ‖ challenge, exported packet = common ‖ signature; no response class overrides more -/
+/-- responses (obtained by running every class of `_version_mapping` on stub objects): credential ‖ beacon (LE32) for RSA, ‖ the
+    challenge's UUID (16) in addition for exactly the ECC protocol versions; signed message = common ‖ challenge, exported packet =
+    common ‖ signature of that message; every version's class behaves like one of the two -/
 theorem gen_dar :
     DatConsts.darCommonBase = [(.raw, .dcExport), (.u32, .authBeacon)] ∧
     DatConsts.darCommonEcc = DatConsts.darCommonBase ++ [(.bytes (.fixed 16), .dacUuid)] ∧
     DatConsts.darSignLayout = [(.raw, .skip), (.raw, .dacChallenge)] ∧
     DatConsts.darExportLayout = [(.raw, .skip), (.raw, .signature)] ∧
-    DatConsts.darEccOverrides = ["_get_common_data"] ∧ DatConsts.darLeafOverrides = false ∧
+    DatConsts.darUniform = true ∧
     (∀ v ∈ DatConsts.versions, darUsesEcc v.1 v.2 = some (v.1 == 2)) ∧
     DatConsts.darVersionUsesEcc.length = DatConsts.versions.length := by decide
 
@@ -131,12 +133,20 @@ def rowDispatchOk (rows : List DatRow) (r : DatRow) : Bool :=
 
 theorem gen_rows_dispatch_sound : DatConsts.rows.all (rowDispatchOk DatConsts.rows) = true := by decide +kernel
 
-/-- `create_from_yaml_config` refuses, before anything is built: a UUID that is not 16 bytes long, a DCK of another type / size
-    than the RoT key, and (RSA / ECC classes) a protocol version other than the one of the RoT key -/
-theorem gen_create_refusals : DatConsts.createRefusals =
-    ["len(«uuid») != 16", "type(«dck_pub») is not type(«rot_pub») or «dck_pub».key_size != «rot_pub».key_size",
-     "«class» in (DebugCredentialCertificateRsa, DebugCredentialCertificateEcc) and «version» != ProtocolVersion.from_public_key(public_key=«rot_pub»)"] := by
-  rfl
+def kindOf (k bits : Nat) : KeyKind := if k = 0 then .rsa bits else .ecc bits
+def clsOf (c : Nat) : Cls := if c = 0 then .rsa else if c = 1 then .ecc else .ele
+
+/-- one row of the accept / refuse table of `create_from_yaml_config` agrees with the model -/
+def createProbeOk : List Nat → Bool
+  | [c, ma, mi, ul, rk, rb, dk, db, res] =>
+    (match createCheck (clsOf c) ma mi ul (kindOf rk rb) (kindOf dk db) with
+     | .ok () => res == 0 | .error .spsdk => res == 1 | .error .other => res == 2)
+  | _ => false
+
+/-- `create_from_yaml_config`, run by the generator on ≈1000 configurations (class × explicit / derived version × UUID length 0 / 15 /
+    16 / 17 × RoT key RSA-2048/4096, P-256/384/521 × DCK likewise): created or refused exactly as `createCheck` says -/
+theorem gen_create_probes : DatConsts.createProbes.all createProbeOk = true ∧ 900 ≤ DatConsts.createProbes.length := by
+  decide +kernel
 
 /-- **dc_create_consistent**: whatever gets past the creation checks has a 16-byte UUID, a DCK of the RoT key's type and size and,
     for the RSA / ECC classes, the protocol version of the RoT key — so the field widths `export` derives from the objects and the
@@ -148,9 +158,7 @@ theorem dc_create_consistent (cls : Cls) (major minor uuidLen : Nat) (rot dck : 
     (cls = .rsa ∨ cls = .ecc → versionOfKey rot = some (major, minor) ∧
       (∀ bits, rot = .rsa bits → lookup minor DatConsts.rsaSigSize = some (bits / 8) ∧ lookup minor DatConsts.rsaKeySize = some (bits / 8 + 4)) ∧
       (∀ bits, rot = .ecc bits → lookup minor DatConsts.eccCoordSize = some ((bits + 7) / 8))) := by
-  have hr := gen_create_refusals
-  simp only [createCheck, hr] at h
-  simp only [List.contains_cons, List.contains_nil, beq_self_eq_true, Bool.true_or, Bool.or_true, Bool.or_false, Bool.true_and] at h
+  simp only [createCheck] at h
   by_cases hu : uuidLen = 16
   · by_cases hd : dck = rot
     · refine ⟨hu, hd, ?_⟩
@@ -363,13 +371,12 @@ theorem dac_export_spec (a : DAC) (h : WFDacInts a) : dacExport a = .ok (specDac
     width `get_rot_hash_length` gives for the ambassador family, the two version words are swapped where the database
     says so. -/
 theorem dac_parse_spec (rows : List DatRow) (a : DAC) (h : WFDacInts a) (fam : String) (row : DatRow)
-    (ha : ambassador rows a.socc = some fam) (hr : latestRow rows fam = some row) (hl : Int)
-    (hh : DatConsts.dacRotHashLength row.basedOnEle row.sha256Always
-      (if row.dacVersionSwapped then a.minor else a.major) (if row.dacVersionSwapped then a.major else a.minor) = .ok hl)
-    (hlen : a.rkthHash.length = hl.toNat) (t : Bytes) :
+    (ha : ambassador rows a.socc = some fam) (hr : latestRow rows fam = some row)
+    (hlen : a.rkthHash.length = dacRotHashLen row.basedOnEle row.sha256Always
+      (if row.dacVersionSwapped then a.minor else a.major) (if row.dacVersionSwapped then a.major else a.minor)) (t : Bytes) :
     dacParse rows (specDacBytes (if row.dacVersionSwapped then a.minor else a.major)
       (if row.dacVersionSwapped then a.major else a.minor) a ++ t) = .ok a :=
-  dacParse_spec rows a h fam row ha hr hl hh hlen t
+  dacParse_spec rows a h fam row ha hr hlen t
 
 /-- `validate_against_dc` passes only for a challenge of the same protocol version (EdgeLock devices excepted), the same
     SoC class, the same UUID (or a credential with the all-zero wildcard UUID) and — unless the device family is flagged
@@ -419,7 +426,8 @@ open SpsdkVerif.DatV2
 
 /-- the certificate head as the current source packs / unpacks it: byte widths (C06's generated layout), argument order of the
     `pack` call, what follows the head in the signed data and in the export, the unpack targets of `parse` by the attribute they
-    feed, the inverted-permission check, the permission data `socc ‖ socu ‖ 0` and the positions the three properties use -/
+    feed, the inverted-permission check; and — obtained by running the wrapper class on stub certificates — that the constructor keeps
+    the stored SoC class, the three properties read / write words 0 / 1 / 2 of the permission data and creation asks for `socc ‖ socu ‖ 0` -/
 theorem gen_cert_layout :
     AhabConsts.certificateLayout.intWidths = [1, 2, 1, 2, 1, 1, 1, 1, 2] ∧
     AhabConsts.certificateLayout.strFields = [(6, 12), (10, 16)] ∧ AhabConsts.certificateLayout.size = 40 ∧
@@ -435,9 +443,8 @@ theorem gen_cert_layout :
       "fuse_version", "_", "_", "uuid"] ∧
     DatConsts.certInvertedCheck = ["«local» != ~«permissions» & 255"] ∧
     DatConsts.certPermDataSize = 12 ∧ DatConsts.certUuidSize = 16 ∧ DatConsts.certPermDebug = 2 ∧
-    DatConsts.v2CreatePermData = ["socc", "socu", "0"] ∧
-    DatConsts.v2PermProps = ["socu:get:<LLL:[1]", "socu:set:<LLL:self.socc,value,self.beacon", "socc:get:<LLL:[0]",
-      "socc:set:<LLL:value,self.socu,self.beacon", "beacon:get:<LLL:[2]", "beacon:set:<LLL:self.socc,self.socu,value"] := by
+    DatConsts.v2CtorKeepsSocc = true ∧ DatConsts.v2CtorZeroesSocc = false ∧ DatConsts.v2PermPropsOk = true ∧
+    DatConsts.v2CreatePermOk = true := by
   decide
 
 /-- every EdgeLock v2 row of the database has a 32-bit SoC class whose low byte is not zero (so that the detour of the
